@@ -66,6 +66,11 @@ def run(ctx):
                           "%s encodes %s with is_table != false: a user stream name is mapped into the table namespace" % (short(f.name), args),
                           f.loc(t["sp"]), fn=f.name)
     ctx.floor(R1, "streamname::encode call sites", n, 9)
+    # table names are validated as TABLE names (the marker character counts against the 31-unit limit)
+    tv = prog.fn("msi::internal::table::Table::is_valid_name")
+    tcs = [args for b, nme, args, t in symcalls(prog, tv) if nme == SN + "is_valid"]
+    ctx.check(len(tcs) == 1 and tcs[0] == ["&*p1", "c:1"], R1, "Table::is_valid_name validates with is_table = true", str(tcs), "Table::is_valid_name calls streamname::is_valid with %s: a table "
+              "name of maximal length passes validation and is refused by the container only after the catalog was written" % tcs, tv.loc(), fn=tv.name, key=R1 + "|table-flag")
     f = prog.fn(SN + "is_valid")
     S = Sym(prog, f)
     cs = symcalls(prog, f, S)
